@@ -161,8 +161,9 @@ Section Comparators.
 End Comparators.
 
 (* ------------------------------------------------------------------ github.com/facette/natsort Compare, modelled:
-   chunks = maximal runs of ASCII digits / non-digits (regexp (\d+|\D+)); digit chunks compare as integers
-   (strconv.Atoi; chunks longer than 18 digits are outside the model), other chunks bytewise. *)
+   chunks = maximal runs of ASCII digits / non-digits (regexp (\d+|\D+), RE2: \d is [0-9] only, \D any other byte incl.
+   newline); two chunks compare as integers when strconv.Atoi succeeds on BOTH (a digit run whose value exceeds
+   2^63-1 makes Atoi fail with a range error; leading zeros are harmless), otherwise bytewise. *)
 Definition is_dig (c : ascii) : bool := in_range "0" "9" c.
 Fixpoint take_run (d : bool) (s : bytes) : bytes * bytes :=
   match s with
@@ -176,7 +177,10 @@ Fixpoint chunkify (fuel : nat) (s : bytes) : list bytes :=
   end.
 Definition chunk_num (c : bytes) : option Z :=
   match c with
-  | d :: _ => if is_dig d then Some (fold_left (fun acc x => acc * 10 + (Z.of_N (code x) - 48)) c 0) else None
+  | d :: _ => if is_dig d
+              then let v := fold_left (fun acc x => acc * 10 + (Z.of_N (code x) - 48)) c 0 in
+                   if v <? 2 ^ 63 then Some v else None          (* strconv.Atoi: ErrRange beyond int64 *)
+              else None
   | [] => None
   end.
 Fixpoint nat_chunks_less (ca cb : list bytes) : bool :=
